@@ -57,6 +57,9 @@ Ev(name, p, c) ==
 (* so the number of such points per sequence is bounded.                       *)
 DoneStarts == Cardinality({i \in 1..Len(hist) : hist[i].ev = "start" /\ hist[i].ctx = "done"})
 
+(* at most one back-to-back event (cancelrelease / release2) per sequence *)
+Compounds == Cardinality({i \in 1..Len(hist) : hist[i].ev \in {"cancelrelease", "release2"}})
+
 (* symmetry breaking: processes make their first call in the order 1, 2, 3 *)
 InOrder(p) == calls[p] > 0 \/ \A q \in Procs : q < p => calls[q] > 0
 
@@ -80,6 +83,42 @@ Input ==
        \/ \E p \in Procs :
             /\ Cancel(p)
             /\ hist' = Append(hist, Ev("cancel", p, ""))
+       \* Back-to-back events, NOT separated by waiting for quiescence.  In Semaphore.tla these are
+       \* ordinary interleavings (Release is enabled in every state and never waits for anybody);
+       \* here they are single input events so that the harness fires the calls without a pause:
+       \* (1) cancel(p) immediately followed by Release, p being the only pending Acquire: Release
+       \*     must return whether p has already left Acquire or not; p ends with its context's error
+       \*     (or, legally, takes the slot that has just been freed);
+       \/ \E p \in Procs :
+            /\ Compounds < 1
+            /\ Pend = {p} /\ ctx[p] = "live"
+            /\ ctx' = [ctx EXCEPT ![p] = "done"]
+            /\ st' = [st EXCEPT ![p] = "idle"]
+            /\ res' = [res EXCEPT ![p] = "err"]
+            /\ ReleaseEffect /\ rel' = rel + 1
+            /\ UNCHANGED <<calls, acq, kind>>
+            /\ hist' = Append(hist, [ev |-> "cancelrelease", p |-> p, ctx |-> "", ret |-> << <<p, "err">> >>,
+                                     kind |-> "", want |-> "", cause |-> "",
+                                     mayok |-> <<p>>, mayerr |-> <<p>>,
+                                     count |-> count', pend |-> <<>>])
+       \* (2) two Releases racing for the one pending Acquire: both must return, the pending
+       \*     Acquire gets a slot.
+       \/ /\ Compounds < 1
+          /\ Cardinality(Pend) = 1
+          \* with N = 1 the outcome depends on who wins the race (Release, AcquireOK, Release leaves
+          \* the slot free; Release, Release, AcquireOK leaves it taken): not a deterministic input event
+          /\ N # 1
+          /\ rel' = rel + 2
+          /\ LET c2 == IF count > 2 THEN count - 2 ELSE 0
+                 p == CHOOSE q \in Pend : TRUE IN
+             /\ count' = IF N = 0 THEN 0 ELSE c2 + 1
+             /\ st' = [st EXCEPT ![p] = "idle"]
+             /\ res' = [res EXCEPT ![p] = "ok"]
+             /\ acq' = acq + 1
+             /\ hist' = Append(hist, [ev |-> "release2", p |-> 0, ctx |-> "", ret |-> << <<p, "ok">> >>,
+                                      kind |-> "", want |-> "", cause |-> "", mayok |-> <<p>>, mayerr |-> <<>>,
+                                      count |-> count', pend |-> <<>>])
+          /\ UNCHANGED <<ctx, calls, kind>>
 
 Respond ==
     \E p \in Procs :
